@@ -114,6 +114,10 @@ def _make_kwonly(reason):
     return KwOnlyExc(reason=reason)
 
 
+class CancelLike(BaseException):
+    """What frameworks use for cancellation / shutdown: an exception class outside the Exception hierarchy."""
+
+
 class EqAll:
     """Compares equal to everything (like unittest.mock.ANY)."""
 
